@@ -54,6 +54,33 @@ def iface_of(F, cls):
     return None
 
 
+def scope_size_rule(ck, F, prefix):
+    # the elements a scope reports (and hence the factors of its product type) are those of its store *now*: size() is an observation
+    # of the store, not a count kept on the side that some way of filling the store does not update
+    R_sz = ck.rule(f'{prefix}.scope-size-derived', 'size() of every scope class (heterogeneous and homogeneous) agrees with the store of declarations: '
+                   'it is computed from the store itself (its size / the distance between its ends), or it reads a member that every '
+                   'constructor sets to the size the store starts with and every member function changes by exactly the number of elements '
+                   'it enters, nothing outside the class entering any: the elements, and with them the type of the scope, always reflect '
+                   'what has been entered, by whatever route', floor=4)
+    import invariants as _inv
+    S_plain = Sym(F, max_depth=40)
+    S_plain.use_lemmas = False          # the rule judges the induction itself
+    for f in _inv.size_functions(F):
+        par = f['parent']
+        bad = []
+        for st, v, kind, m in _inv.size_answers(F, S_plain, f):
+            if kind == 'store':
+                continue
+            if kind == 'member':
+                why, judged = _inv.counter_agrees(F, S_plain, par, m, f)
+                ck.note(f'{contracts.short(par)}::size reads the member `{m}`: judged by induction over {judged} constructor / member-function path(s)')
+                bad.extend(why[:3])
+            else:
+                bad.append(f'answers `{contracts.render(v, st, {})[:60]}`, which is neither computed from the store nor a member of the scope')
+        ck.check(R_sz, contracts.short(par) + '::size', not bad, f'{f["id"]}: ' + '; '.join(bad) + ' -- a count kept beside the store that a store '
+                 'filled by another route (a constructor, a direct push) does not match', loc=f['loc'], fn=f['id'])
+
+
 def run(ck, F):
     ck.explanation = (
         'type() is evaluated symbolically on an abstract object of every concrete expression class the library '
@@ -256,30 +283,7 @@ def run(ck, F):
     import c02 as _c02
     _c02.redeclaration_operands(ck, F, 'C09', only={'type'})
 
-    # the elements a scope reports (and hence the factors of its product type) are those of its store *now*: size() is an observation
-    # of the store, not a count kept on the side that some way of filling the store does not update
-    R_sz = ck.rule('C09.scope-size-derived', 'size() of every scope class (heterogeneous and homogeneous) agrees with the store of declarations: '
-                   'it is computed from the store itself (its size / the distance between its ends), or it reads a member that every '
-                   'constructor sets to the size the store starts with and every member function changes by exactly the number of elements '
-                   'it enters, nothing outside the class entering any: the elements, and with them the type of the scope, always reflect '
-                   'what has been entered, by whatever route', floor=4)
-    import invariants as _inv
-    S_plain = Sym(F, max_depth=40)
-    S_plain.use_lemmas = False          # the rule judges the induction itself
-    for f in _inv.size_functions(F):
-        par = f['parent']
-        bad = []
-        for st, v, kind, m in _inv.size_answers(F, S_plain, f):
-            if kind == 'store':
-                continue
-            if kind == 'member':
-                why, judged = _inv.counter_agrees(F, S_plain, par, m, f)
-                ck.note(f'{contracts.short(par)}::size reads the member `{m}`: judged by induction over {judged} constructor / member-function path(s)')
-                bad.extend(why[:3])
-            else:
-                bad.append(f'answers `{contracts.render(v, st, {})[:60]}`, which is neither computed from the store nor a member of the scope')
-        ck.check(R_sz, contracts.short(par) + '::size', not bad, f'{f["id"]}: ' + '; '.join(bad) + ' -- a count kept beside the store that a store '
-                 'filled by another route (a constructor, a direct push) does not match', loc=f['loc'], fn=f['id'])
+    scope_size_rule(ck, F, 'C09')
     # members entered into an enumeration, a parameter list, a base list: the enumerator has the enumeration as its type, a parameter
     # or a base the type it was given -- on every path, whatever else the owner has been told since (an underlying type, ...)
     MEMBER_TYPES = {'ipr::impl::Enum::add_member(const ipr::Name &)': '$this',
